@@ -1028,6 +1028,15 @@ def rand_c10(seed, tier, cases=None):
             out.append(dict(fam="C10", kind="payloader", mtu=first, stapa=True,
                             calls=[dict(units=[sps, pps, _nal(5, 3, 30, rng)], scs=[4, 4, 4], mtu=first), dict(units=[sps2, pps2, _nal(5, 3, 30, rng)], scs=[4, 4, 4], mtu=second),
                                    dict(units=[sps, pps, _nal(1, 2, 9, rng)], scs=[3, 3, 3], mtu=first)], **{"class": "params_again_other_mtu"}))
+    # DisableStapA is a plain field: the application flips it between calls (parameter sets seen in one mode, the next unit in the other)
+    for order in ((False, True), (True, False), (False, True, False), (True, False, True)):
+        for split in (True, False):
+            sps, pps = _nal(7, 3, 10, rng), _nal(8, 3, 5, rng)
+            calls = []
+            for j, mode in enumerate(order):
+                units = ([sps, pps] if (j == 0 or not split) else []) + [_nal(5 if j % 2 == 0 else 1, 2, 25, rng)]
+                calls.append(dict(units=units, scs=[4] * len(units), stapa_now=mode))
+            out.append(dict(fam="C10", kind="payloader", mtu=1200, stapa=order[0], calls=calls, **{"class": "stapa_option_flipped"}))
     # a unit cut into 800 fragments, and 300 calls on one payloader (parameter sets now and then)
     out.append(dict(fam="C10", kind="payloader", mtu=7, stapa=True, calls=[dict(units=[_nal(5, 3, 4000, rng), _nal(1, 2, 9, rng)], scs=[4, 3])], **{"class": "many_fragments"}))
     for stap in (True, False):
